@@ -61,7 +61,22 @@ var programs = []struct {
 	{"e", mainProg([]string{"pe"}, "\treturn pe.E3(a) + pe.E2(b)\n")},
 	{"fc", mainProg([]string{"pf", "pc"}, "\treturn pf.J(a) + pc.G(b)\n")},
 	{"consts", "package main\n\nconst (\n\tC1 = 17\n\tC2 = 99\n\tC3 = 250\n)\n\nfunc main(a, b uint8) (uint8, uint8) {\n\tx := a + C1\n\ty := b * C2\n\tif x > C3 {\n\t\treturn x ^ 85, y + 1\n\t}\n\treturn y - 3, x & 7\n}\n"},
+	{"widths", widthsProg()},
 	{"crypto", mainProg([]string{"crypto/aes", "crypto/hmac"}, "\treturn a + b + aes.BlockSize\n")},
+}
+
+// widthsProg multiplies, divides and compares at many operand widths: the circuit builders choose algorithms
+// and parameters by width (threshold tables).
+func widthsProg() string {
+	s := "package main\n\nfunc main(a, b uint64) uint64 {\n\tvar r uint64\n"
+	for _, w := range []int{5, 9, 12, 13, 17, 21, 24, 29, 31, 33, 40, 48, 56, 63} {
+		s += fmt.Sprintf("\tr = r + uint64(uint%d(a)*uint%d(b))\n", w, w)
+	}
+	for _, w := range []int{7, 16, 29} {
+		s += fmt.Sprintf("\tr = r ^ uint64(uint%d(a)/(uint%d(b)|1))\n", w, w)
+	}
+	s += "\treturn r\n}\n"
+	return s
 }
 
 type cs struct {
@@ -334,7 +349,7 @@ func work(ctx *runner.Ctx) {
 		emit(cs{Mode: "xproc", Prog: p})
 	}
 	// histories on one Compiler instance / on shared Params
-	hp := []int{0, 1, 2, 3, 4, 5, 6}
+	hp := []int{0, 1, 2, 3, 4, 5, 6, 7}
 	for _, share := range []string{"compiler", "params"} {
 		for _, last := range hp {
 			for _, h1 := range hp {
